@@ -566,3 +566,241 @@ Proof.
   destruct (command_info (C15.p_cmd p)) as [[[locals lo] hi]|] eqn:Hc; [|discriminate].
   eapply pretend_installed; eauto.
 Qed.
+
+(* ------------------------------------------------------------------------------------ *)
+(* (b) fuel: parse_cmd_args never runs dry                                               *)
+
+(* what FlagSet.Parse leaves over is a suffix of what it was given *)
+Lemma fparse_suffix fs : forall n args acc a rest',
+  length args <= n -> fparse fs args acc = POk a rest' -> exists pre, args = pre ++ rest'.
+Proof.
+  induction n as [|n IH]; intros args acc a rest' Hlen H.
+  - destruct args; [|cbn [length] in Hlen; lia]. cbn in H. injection H as _ <-. now exists [].
+  - destruct args as [|s rest]; [cbn in H; injection H as _ <-; now exists []|].
+    cbn [length] in Hlen. assert (Hr : length rest <= n) by lia.
+    assert (Hstop : POk (rev acc) (s :: rest) = POk a rest' -> exists pre, s :: rest = pre ++ rest').
+    { intros E. injection E as _ <-. now exists []. }
+    assert (Hrec : forall acc', fparse fs rest acc' = POk a rest' ->
+                                exists pre, s :: rest = pre ++ rest').
+    { intros acc' E. destruct (IH rest acc' a rest' Hr E) as [pre ->]. now exists (s :: pre). }
+    cbn [fparse] in H.
+    destruct s as [|c0 [|c1 tl]]; [now apply Hstop|now apply Hstop|].
+    destruct (negb (Ascii.eqb c0 dashc)); [now apply Hstop|].
+    destruct (Ascii.eqb c1 dashc && match tl with [] => true | _ :: _ => false end).
+    { injection H as _ <-. now exists [c0 :: c1 :: tl]. }
+    destruct (if Ascii.eqb c1 dashc then tl else c1 :: tl) as [|n0 name0]; [discriminate|].
+    destruct (Ascii.eqb n0 dashc || Ascii.eqb n0 eqch); [discriminate|].
+    destruct (split_eq [] (n0 :: name0)) as [name val].
+    destruct (fs_lookup fs name) as [[|]|]; [| |discriminate].
+    + destruct val as [v|]; [|now apply (Hrec _ H)].
+      destruct (parse_bool v); [now apply (Hrec _ H)|discriminate].
+    + destruct val as [v|]; [now apply (Hrec _ H)|].
+      destruct rest as [|v rest2]; [discriminate|].
+      cbn [length] in Hr.
+      destruct (IH rest2 _ a rest' ltac:(lia) H) as [pre ->].
+      now exists ((c0 :: c1 :: tl) :: v :: pre).
+Qed.
+
+Lemma fparse_rest_le fs args acc a rest' :
+  fparse fs args acc = POk a rest' -> length rest' <= length args.
+Proof.
+  intros H. destruct (fparse_suffix fs (length args) args acc a rest' (le_n _) H) as [pre ->].
+  rewrite app_length. lia.
+Qed.
+
+(* with fuel >= number of arguments, None can only come from a failing FlagSet.Parse *)
+Lemma parse_cmd_args_none fs : forall fuel args first words asg,
+  length args <= fuel ->
+  parse_cmd_args fuel fs args first words asg = None ->
+  exists pre w rest, args = pre ++ w :: rest /\ fparse fs rest [] = PErr.
+Proof.
+  induction fuel as [|fuel IH]; intros args first words asg Hlen H.
+  - destruct args; [discriminate|cbn [length] in Hlen; lia].
+  - destruct args as [|w rest]; [discriminate|]. cbn [parse_cmd_args] in H. cbn [length] in Hlen.
+    destruct (fparse fs rest []) as [|a rest'] eqn:Ef.
+    + exists [], w, rest. auto.
+    + pose proof (fparse_rest_le _ _ _ _ _ Ef) as Hle.
+      destruct (fparse_suffix fs _ _ _ _ _ (le_n _) Ef) as [p Hp].
+      destruct (IH rest' false _ _ ltac:(lia) H) as (pre & w' & r & -> & Herr).
+      exists (w :: p ++ pre), w', r. split; [|exact Herr].
+      rewrite Hp. cbn [app]. now rewrite <- app_assoc.
+Qed.
+
+(* the result does not depend on the fuel once there is one unit per argument *)
+Lemma parse_cmd_args_fuel fs : forall f1 f2 args first words asg,
+  length args <= f1 -> length args <= f2 ->
+  parse_cmd_args f1 fs args first words asg = parse_cmd_args f2 fs args first words asg.
+Proof.
+  induction f1 as [|f1 IH]; intros f2 args first words asg H1 H2.
+  - destruct args; [|cbn [length] in H1; lia]. now destruct f2.
+  - destruct args as [|w rest]; [now destruct f2|].
+    cbn [length] in H1, H2. destruct f2 as [|f2]; [lia|].
+    cbn [parse_cmd_args]. destruct (fparse fs rest []) as [|a rest'] eqn:Ef; [reflexivity|].
+    pose proof (fparse_rest_le _ _ _ _ _ Ef) as Hle. apply IH; lia.
+Qed.
+
+(* (b) as used by parse_main: fuel S (length rest) *)
+Theorem args_total fs rest first words asg :
+  parse_cmd_args (S (length rest)) fs rest first words asg = None ->
+  exists pre w rest', rest = pre ++ w :: rest' /\ fparse fs rest' [] = PErr.
+Proof. apply parse_cmd_args_none. lia. Qed.
+
+Theorem args_total_contra fs rest first words asg :
+  (forall pre w rest', rest = pre ++ w :: rest' -> fparse fs rest' [] <> PErr) ->
+  parse_cmd_args (S (length rest)) fs rest first words asg <> None.
+Proof.
+  intros Hall Hn. destruct (args_total _ _ _ _ _ Hn) as (pre & w & r & E & Herr).
+  exact (Hall pre w r E Herr).
+Qed.
+
+Theorem args_fuel_irrelevant fs rest first words asg extra :
+  parse_cmd_args (S (length rest) + extra) fs rest first words asg
+  = parse_cmd_args (length rest) fs rest first words asg.
+Proof. apply parse_cmd_args_fuel; lia. Qed.
+
+(* at the level of main(): MUsage is never produced by lack of fuel *)
+Theorem main_args_total argv g rest locals lo hi :
+  fparse global_flags argv [] = POk g rest ->
+  command_info (match rest with c :: _ => c | [] => bs "status" end) = Some (locals, lo, hi) ->
+  parse_cmd_args (S (length rest)) (common_switches ++ locals) rest true [] [] = None ->
+  exists pre w rest', rest = pre ++ w :: rest'
+                      /\ fparse (common_switches ++ locals) rest' [] = PErr.
+Proof. intros _ _. apply args_total. Qed.
+
+(* ------------------------------------------------------------------------------------ *)
+(* (c) a command that is run is known and its argument count is within its arity         *)
+
+Theorem run_means_wellformed argv o c words l :
+  parse_main argv = MRun o c words l ->
+  exists locals lo hi, command_info c = Some (locals, lo, hi)
+                       /\ lo <= length words /\ length words <= hi.
+Proof.
+  unfold parse_main. intros H.
+  destruct (fparse global_flags argv []) as [|g rest]; [discriminate|].
+  match type of H with (if ?b then MUsage else _) = _ => destruct b end; [discriminate|].
+  destruct (command_info _) as [[[locals lo] hi]|] eqn:Hc; [|discriminate].
+  destruct (parse_cmd_args _ _ _ _ _ _) as [[ws asg]|]; [|discriminate].
+  destruct ((length ws <? lo) || (hi <? length ws)) eqn:Ea; [discriminate|].
+  injection H as _ <- <- _.
+  exists locals, lo, hi. split; [exact Hc|]. lia.
+Qed.
+
+(* the command is the first non-switch argument, or "status" when there is none; help and
+   version never run anything *)
+Theorem run_command_word argv o c words l :
+  parse_main argv = MRun o c words l ->
+  exists g rest, fparse global_flags argv [] = POk g rest
+                 /\ c = match rest with c :: _ => c | [] => bs "status" end
+                 /\ In c command_names.
+Proof.
+  intros H. destruct (run_means_wellformed _ _ _ _ _ H) as (locals & lo & hi & Hc & _).
+  unfold parse_main in H.
+  destruct (fparse global_flags argv []) as [|g rest]; [discriminate|].
+  exists g, rest. split; [reflexivity|].
+  match type of H with (if ?b then MUsage else _) = _ => destruct b end; [discriminate|].
+  destruct (command_info (match rest with c :: _ => c | [] => bs "status" end))
+    as [[[locals' lo'] hi']|]; [|discriminate].
+  destruct (parse_cmd_args _ _ _ _ _ _) as [[ws asg]|]; [|discriminate].
+  match type of H with (if ?b then MUsage else _) = _ => destruct b end; [discriminate|].
+  injection H as _ <- _ _. split; [reflexivity|].
+  eapply command_info_known; eauto.
+Qed.
+
+(* ------------------------------------------------------------------------------------ *)
+(* examples: the hypotheses are satisfiable by non-trivial command lines                 *)
+
+(* layercake -debug umount -all -p *)
+Definition ex1_pre := [TBool (bs "debug")].
+Definition ex1_cmd := bs "umount".
+Definition ex1_post := [TBool (bs "all"); TBool (bs "p")].
+
+Example ex1_hyps :
+  forallb pre_ok ex1_pre = true /\
+  command_info ex1_cmd = Some ([(bs "all", FBool)], 0, 1) /\
+  forallb (local_ok [(bs "all", FBool)]) ex1_post = true /\
+  existsb is_p (ex1_pre ++ ex1_post) = true.
+Proof. vm_compute. auto. Qed.
+
+Example ex1_result :
+  parse_main (render_toks ex1_pre ++ [ex1_cmd] ++ render_toks ex1_post)
+  = MRun (MkO false true true false) (bs "umount") []
+         [(bs "all", bs "true"); (bs "p", bs "true")].
+Proof. vm_compute. reflexivity. Qed.
+
+Example ex1_argv :
+  render_toks ex1_pre ++ [ex1_cmd] ++ render_toks ex1_post
+  = [bs "-debug"; bs "umount"; bs "-all"; bs "-p"].
+Proof. vm_compute. reflexivity. Qed.
+
+(* layercake -basepath /x -v add L1 -configfile -p -p base -force
+   (the first "-p" is the VALUE of -configfile; the second is the switch) *)
+Definition ex2_pre := [TStr (bs "basepath") (bs "/x"); TBool (bs "v")].
+Definition ex2_cmd := bs "add".
+Definition ex2_post :=
+  [TWord (bs "L1"); TStr (bs "configfile") (bs "-p"); TBool (bs "p"); TWord (bs "base");
+   TBool (bs "force")].
+
+Example ex2_hyps :
+  forallb pre_ok ex2_pre = true /\
+  command_info ex2_cmd = Some ([(bs "configfile", FString)], 1, 2) /\
+  forallb (local_ok [(bs "configfile", FString)]) ex2_post = true /\
+  existsb is_p (ex2_pre ++ ex2_post) = true.
+Proof. vm_compute. auto. Qed.
+
+Example ex2_result :
+  parse_main (render_toks ex2_pre ++ [ex2_cmd] ++ render_toks ex2_post)
+  = MRun (MkO true true false true) (bs "add") [bs "L1"; bs "base"]
+         [(bs "configfile", bs "-p"); (bs "p", bs "true"); (bs "force", bs "true")].
+Proof. vm_compute. reflexivity. Qed.
+
+(* -p before the command word only: layercake -p -force remove -files L1 *)
+Example ex3_result :
+  let pre := [TBool (bs "p"); TBool (bs "force")] in
+  let post := [TBool (bs "files"); TWord (bs "L1")] in
+  forallb pre_ok pre = true /\
+  forallb (local_ok [(bs "files", FBool)]) post = true /\
+  existsb is_p (pre ++ post) = true /\
+  parse_main (render_toks pre ++ [bs "remove"] ++ render_toks post)
+  = MRun (MkO false true false true) (bs "remove") [bs "L1"] [(bs "files", bs "true")].
+Proof. vm_compute. auto. Qed.
+
+(* a process-level case of Cases/C15.v that satisfies p_wf, p_known and has_p *)
+Definition ex_pcase : C15.pcase :=
+  C15.MkP ex1_pre ex1_cmd ex1_post [bs "-debug"; bs "umount"; bs "-all"; bs "-p"] 0 false true false.
+Example ex_pcase_hyps :
+  C15.p_wf ex_pcase = true /\ p_known ex_pcase = true /\ C15.has_p ex_pcase = true.
+Proof. vm_compute. auto. Qed.
+
+(* (b): a failing local FlagSet.Parse is the reason for None, here an unknown switch *)
+Example ex_args_err :
+  parse_cmd_args 5 (common_switches ++ [(bs "all", FBool)])
+    [bs "umount"; bs "L1"; bs "-bogus"] true [] [] = None
+  /\ fparse (common_switches ++ [(bs "all", FBool)]) [bs "-bogus"] [] = PErr.
+Proof. vm_compute. auto. Qed.
+
+(* (b): hypothesis of args_total_contra holds for a non-trivial line *)
+Example ex_args_ok :
+  parse_cmd_args 4 (common_switches ++ [(bs "all", FBool)])
+    [bs "umount"; bs "-all"; bs "L1"] true [] []
+  = Some ([bs "L1"], [(bs "all", bs "true")]).
+Proof. vm_compute. reflexivity. Qed.
+
+(* (c) *)
+Example ex_arity_usage : parse_main [bs "rename"; bs "a"] = MUsage.
+Proof. vm_compute. reflexivity. Qed.
+Example ex_arity_run :
+  parse_main [bs "rename"; bs "a"; bs "-p"; bs "b"]
+  = MRun (MkO false true false false) (bs "rename") [bs "a"; bs "b"] [(bs "p", bs "true")].
+Proof. vm_compute. reflexivity. Qed.
+
+(* boundary of (a): outside the structured shapes the switch can be undone or hidden.
+   These are the documented behaviours of Go's flag package, not defects:
+   -p=false after -p (explicit value), and "--" which ends switch parsing. *)
+Example boundary_explicit_false :
+  parse_main [bs "-p"; bs "-p=false"; bs "status"]
+  = MRun (MkO false false false false) (bs "status") [] [].
+Proof. vm_compute. reflexivity. Qed.
+Example boundary_double_dash :
+  parse_main [bs "status"; bs "--"; bs "-p"]
+  = MRun (MkO false false false false) (bs "status") [bs "-p"] [].
+Proof. vm_compute. reflexivity. Qed.
